@@ -60,6 +60,16 @@ def handle : Handler
     let cands := (List.range namb).map (fun k => tokens evs (some k))
     let nreq := (evs.filter (fun e => match e with | .req _ => true | _ => false)).length
     let amb := evs.any (fun e => match e with | .maybeClosed => true | _ => false)
+    -- Known finding: with a fixed-length body LARGER than MaxRequestBodySize the prefetch of the real code
+    -- (`readBodyIdentity`) takes whatever is buffered, also bytes behind the body; what happens then depends on the
+    -- buffering and on the capacity of the pooled body buffer, so the model (prefetch = min(length, limit, 8 KiB), the
+    -- behaviour the repo's own tests rule out repairing) serves as the specification for such requests.
+    let oversize := evs.any (fun e => match e with | .req r => r.head.cl > (cfg.maxBody : Int) | _ => false)
+    if oversize then
+      let ok := impl == t1 || cands.contains impl
+      return { out := impl, spec := ok && specOk impl, cls := (if ok && specOk impl then "" else "stream-oversize-prefetch"),
+               specNote := "body longer than the limit, streaming: the handler must see only body bytes and the connection must stay in sync",
+               tag := "sserve:oversize:" ++ boolTok ok ++ (if endK == "stall" then "S" else "E") }
     pure { out := if cands.contains impl then impl else t1, spec := specOk impl, specNote := "no panic/hang; no request taken from body bytes",
            tag := "sserve:" ++ toString (min nreq 4) ++ boolTok amb ++ (if endK == "stall" then "S" else "E") ++
                   boolTok (evs.any (fun e => match e with | .req r => r.got.eof | _ => false)) ++
